@@ -130,6 +130,8 @@ def gen_dataset(rng, spec):
     start = pd.Timestamp("2018-01-01") + pd.Timedelta(days=int(rng.integers(0, 365)))
     if "month_threshold" in (spec.get("how_temp"), spec.get("how_usage")) and rng.random() < 0.6:
         start = pd.Timestamp("2019-03-01") + pd.Timedelta(days=int(rng.integers(0, 300)))          # spans that contain the leap February of 2020
+    if spec.get("start"):
+        start = pd.Timestamp(spec["start"])
     idx = pd.date_range(start.tz_localize(tz), periods=n, freq="D") if fam != "x" else None
     T = np.round(daily_weather(rng, idx), 2)
     y = np.round(20 + 1.0 * np.maximum(55 - T, 0) + 0.6 * np.maximum(T - 68, 0) + rng.normal(0, 1, n), 3)
@@ -537,6 +539,11 @@ def gen_cases(tier, seed):
         role = "baseline" if i % 4 else "reporting"
         cases.append(dict(kind="daily", family="daily", role=role, tz=str(rng.choice(NO_DST)), n_days=n, entry="frame", k_usage=k if (which != "temp" and role == "baseline") else 0,
                           k_temp=k if which != "usage" or role != "baseline" else 0, how_usage=how, how_temp=how, same_days=(which == "both"), gas=bool(i % 2), n=50000 + i))
+    # spans ON the length limits in DST zones that contain one clock change only (spring-forward but not the fall-back, and the reverse)
+    for i in range(8 if q else 32):
+        n_ = [329, 366, 328, 365][i % 4]
+        cases.append(dict(kind="daily", family="daily", role="baseline", tz=DST[(i // 4) % len(DST)], n_days=n_, entry=["frame", "series"][(i // 2) % 2], k_usage=0, k_temp=0,
+                          how_usage="random", how_temp="random", gas=False, start=["2020-11-15", "2020-04-20"][(i // 4) % 2] if DST[(i // 4) % len(DST)] not in ("Australia/Sydney", "Pacific/Auckland") else ["2020-04-20", "2020-10-20"][(i // 4) % 2], n=80000 + i))
     # a baseline without a single usable meter reading (the meter was offline): "no data at all" is a verdict, not a crash
     for i in range(3 if q else 12):
         n_ = [365, 340, 200][i % 3]
